@@ -1110,6 +1110,13 @@ def register_whole(R):
                 return z3.ForAll([u], z3.Implies(edge, z3.And(0 <= fi, fi < m, 1 <= fj, fj < sel(LEN, fi), at(fi, fj) == u, at(fi, fj - 1) == sel(P, u))))
             if which == "every-edge-lies-in-some-branch":
                 return z3.ForAll([u], z3.Implies(edge, z3.Exists([i, j], z3.And(ini, 1 <= j, j < sel(LEN, i), at(i, j) == u, at(i, j - 1) == sel(P, u)))))
+            end = lambda a: at(a, sel(LEN, a) - 1)
+            if which == "every-tip-and-furcation-other-than-the-root-ends-a-branch":
+                return z3.ForAll([u], z3.Implies(z3.And(edge, z3.Or(two_rows(t, u), no_child(t, u))), z3.Exists([i], z3.And(ini, end(i) == u))), patterns=[sel(col(t, "id").arr, u)])
+            if which == "no-two-branches-end-at-the-same-node":
+                return z3.ForAll([i, i2], z3.Implies(z3.And(ini, 0 <= i2, i2 < m, i != i2), end(i) != end(i2)))
+            if which == "every-branch-starts-at-the-root-or-where-another-branch-ends":
+                return z3.ForAll([i], z3.Implies(ini, z3.Or(at(i, 0) == 0, z3.Exists([i2], z3.And(0 <= i2, i2 < m, end(i2) == at(i, 0))))))
             if which == "no-edge-lies-in-two-branches-or-twice-in-one":
                 return z3.ForAll([i, j, i2, j2], z3.Implies(z3.And(ini, 0 <= i2, i2 < m, 1 <= j, j < sel(LEN, i), 1 <= j2, j2 < sel(LEN, i2), at(i, j) == at(i2, j2)), z3.And(i == i2, j == j2)))
             raise KeyError(which)
@@ -1209,6 +1216,27 @@ def register_whole(R):
 
         return f
 
+    def gbw_hint_ends(E, vars):
+        ctx, t, res = E.ghost["last-traverse-ctx"], vars["self"], E.ghost["gb-result"]
+        IDX, LEN, m = res.cols[0], res.cols[1], zint(res.n)
+        P, n = col(t, "pid").arr, nof(t)
+        own, inch, pos, bi, bp = g9(vars)
+        lc, hn = hlc9(0), hn9(0)
+        closing = decided(E, lc > 1)
+        u, x, a, b = (z3.Int(fresh_name(c)) for c in "uxab")
+        at = lambda a_, b_: sel(sel(IDX, a_), b_)
+        fi = ite(closing, z3.If(sel(inch, u), 0, hn - sel(bi, u)), sel(bi, u))
+        fj = ite(closing, z3.If(sel(inch, u), lc - 1 - sel(pos, u), sel(bp, u)), sel(bp, u))
+        edge = z3.And(0 < u, u < n)
+        voc = [ctx.P, ctx.n, IDX, LEN, m, ctx.nkids, ctx.kid, ctx.rank, col(t, "id").arr] + list(g9(vars)) + [hn9, hlc9]
+        st = lambda nm, f_: X.prove_in_vocabulary(E, f"Tree.get_branches/step/{nm}", f_, voc)
+        st("two-rows-naming-a-node-as-parent-are-two-children", z3.ForAll([x, a, b], z3.Implies(z3.And(ctx.R(x), 0 <= a, a < b, b < n, sel(P, a) == x, sel(P, b) == x), ctx.nkids(x) > 1)))
+        st("a-furcation-has-two-or-more-children", z3.ForAll([x], z3.Implies(z3.And(ctx.R(x), two_rows(t, x)), ctx.nkids(x) >= 2), patterns=[sel(col(t, "id").arr, x), ctx.nkids(x)]))
+        st("a-node-with-children-is-named-as-parent-by-its-first-child", z3.ForAll([x], z3.Implies(z3.And(ctx.R(x), ctx.nkids(x) > 0), z3.And(ctx.R(ctx.kid(x, 0)), sel(P, ctx.kid(x, 0)) == x)), patterns=[ctx.nkids(x)]))
+        st("a-tip-has-no-children", z3.ForAll([x], z3.Implies(z3.And(ctx.R(x), no_child(t, x)), ctx.nkids(x) == 0), patterns=[sel(col(t, "id").arr, x), ctx.nkids(x)]))
+        st("a-node-that-is-not-a-pass-through-node-is-the-last-entry-of-the-branch-that-holds-the-edge-into-it",
+           z3.ForAll([u], z3.Implies(z3.And(edge, ctx.nkids(u) != 1), z3.And(0 <= fi, fi < m, fj == sel(LEN, fi) - 1, at(fi, fj) == u)), patterns=[ctx.nkids(u)]))
+
     def gbw_then_post(which, first=None, kind="shape"):
         """hint: run the steps of `first`, then prove THE formula of postcondition `which` in a reduced context (it is then a hypothesis of the
         postcondition's own obligation, which is discharged at once)"""
@@ -1217,6 +1245,8 @@ def register_whole(R):
                 first(E, vars)
             ctx, t, res = E.ghost["last-traverse-ctx"], vars["self"], E.ghost["gb-result"]
             voc = [ctx.P, ctx.n, res.cols[0], res.cols[1], zint(res.n)] + ([ctx.nkids, col(t, "id").arr] if kind == "shape" else [hn9, hlc9, hLEN9, hB9, hc9] if kind == "map" else list(g9(vars)) + [hn9, hlc9])
+            if kind == "ends":
+                voc += [ctx.nkids, col(t, "id").arr]
             X.prove_in_vocabulary(E, f"Tree.get_branches/step/{which}-from-the-steps", E.ghost[("gb-post", which)], voc)
 
         return f
@@ -1224,7 +1254,9 @@ def register_whole(R):
     GBW = ["branches-attached-to-this-tree", "pending-chain-of-more-than-one-node-closed-root-first", "every-branch-of-the-traversal-kept",
            "every-branch-has-an-edge-and-consecutive-entries-are-parent-and-child", "every-branch-starts-at-the-root-or-a-furcation",
            "every-branch-ends-at-a-furcation-or-a-tip", "interior-nodes-are-pass-through",
-           "every-edge-lies-in-a-branch-at-its-recorded-place", "every-edge-lies-in-some-branch", "no-edge-lies-in-two-branches-or-twice-in-one"]
+           "every-edge-lies-in-a-branch-at-its-recorded-place", "every-edge-lies-in-some-branch", "no-edge-lies-in-two-branches-or-twice-in-one",
+           # corollaries that the branch tree rests on ("exactly the root, furcations and tips as nodes, joined as the branches join them")
+           "no-two-branches-end-at-the-same-node", "every-tip-and-furcation-other-than-the-root-ends-a-branch", "every-branch-starts-at-the-root-or-where-another-branch-ends"]
     R.add(f"{TREE}:Tree.get_branches", prop="C08", setup=gbw_setup,
           ensures=[(w, gbw_post(w)) for w in GBW],
           inlined_loops={f"{TREE}:Tree.get_branches.<locals>.collect_branches": {0: CB_LOOP}},
@@ -1236,7 +1268,10 @@ def register_whole(R):
                               "post/interior-nodes-are-pass-through": gbw_then_post("interior-nodes-are-pass-through"),
                               "post/every-edge-lies-in-a-branch-at-its-recorded-place": gbw_hint_edges("cover"),
                               "post/every-edge-lies-in-some-branch": gbw_then_post("every-edge-lies-in-some-branch", kind="edges"),
-                              "post/no-edge-lies-in-two-branches-or-twice-in-one": gbw_then_post("no-edge-lies-in-two-branches-or-twice-in-one", gbw_hint_edges("unique"), kind="edges")}),
+                              "post/no-edge-lies-in-two-branches-or-twice-in-one": gbw_then_post("no-edge-lies-in-two-branches-or-twice-in-one", gbw_hint_edges("unique"), kind="edges"),
+                              "post/no-two-branches-end-at-the-same-node": gbw_then_post("no-two-branches-end-at-the-same-node", kind="edges"),
+                              "post/every-tip-and-furcation-other-than-the-root-ends-a-branch": gbw_then_post("every-tip-and-furcation-other-than-the-root-ends-a-branch", gbw_hint_ends, kind="ends"),
+                              "post/every-branch-starts-at-the-root-or-where-another-branch-ends": gbw_then_post("every-branch-starts-at-the-root-or-where-another-branch-ends", kind="ends")}),
           notes="whole function, trees of any size (traverse client rule with (list of branches, chain) leave values; loop of the callback cut at an invariant); the input tree is frozen")
 
 
